@@ -148,6 +148,104 @@ CLAIMED["C17"] = {
     "design_ref": "DESIGN.md §3 C17",
 }
 
+CLAIMED["C10"] = {
+    "text": "Lean theorems over the session model: delete removes exactly the rows with the given ids and every relation "
+            "naming one of them and nothing else (delete_exact); update with no features is the identity; for a GFF3 "
+            "database and fresh unique ids, update refines the reference model (old rows ++ new rows; level-1 = old + "
+            "Parent links; level-2 = old + two level-1 steps from a stored feature) and every finite history of "
+            "update / delete / add_relation / reopen steps in that domain refines the fold of the reference steps "
+            "(history_refines_spec); counters only move forward under every importer stage and strategy, are written "
+            "back and re-read on reopen, and no generated key is ever handed out twice, across bases and reopenings "
+            "(counters_monotone, reopen_counters, keys_never_recycled with injectivity of the decimal rendering); with "
+            "make_backup the .bak equals the pre-operation file for every write op, every failure position and every "
+            "possible effect of the failed write on the main file (backup_complete). Partial: the refinement covers "
+            "updates without key collisions (collisions are C05's theorems) and the GFF importer; the state of the main "
+            "file after a failed update is left unspecified. Correspondence: exhaustive depth-2 histories over a 9-op "
+            "alphabet plus random depth <= 8 on file databases, full table dump after every step; oracle: independent "
+            "dict/set reference, counter table vs keys handed out, .bak comparison with the source failing at every "
+            "position.",
+    "note": "Trusted: Lean kernel + standard axioms; list model of the sqlite tables and of the two-connection update "
+            "(commit points abstracted); shutil.copy2 of a quiescent file.",
+    "technique": "Lean 4 refinement to an abstract spec + invariants over operation histories + differential correspondence",
+    "design_ref": "DESIGN.md §3 C10",
+}
+CLAIMED["C19"] = {
+    "text": "Thin by nature: in the pure World model create_db on an occupied path without force returns "
+            "OperationalError and leaves every file unchanged, with force (or a free path) the file becomes the import "
+            "of the new input alone, independent of the old content; every read-style operation leaves files, session "
+            "tables, counters, dialect and directives unchanged (reads_do_not_write = the classification of operations). "
+            "The weight is carried by the tie to the code: an sqlite3 statement trace on FeatureDB.conn during random "
+            "sequences of read-style calls (look-up, iteration, children, parents, region, interfeatures, "
+            "create_introns, create_splice_sites, merge, children_bp, bed12, counts) must show no write statement, and "
+            "the content after reopening must be unchanged; (old, new) pairs for both force settings.",
+    "note": "Trusted: Lean kernel + standard axioms; set_trace_callback reports every statement; 'content' = what a "
+            "fresh FeatureDB observes (pragmas/header bytes are not content). interfeatures/merge/bed12 are classified "
+            "as reads by the trace, not by the World model.",
+    "technique": "Lean 4 theorems over a file-map state machine + sqlite statement trace on the real code",
+    "design_ref": "DESIGN.md §3 C19",
+}
+CLAIMED["C20"] = {
+    "text": "Partial by nature: Lean theorems over an abstract interleaving model (GffModel/Conc.lean) - N processes each "
+            "running mkstemp, write, read, unlink, writeOutput on a shared temp directory with arbitrary initial content, "
+            "a scheduler picking the process and an adversary picking the fresh name (accepted only if unused = O_EXCL): "
+            "for EVERY N, schedule and name choice, held names are pairwise distinct and owned (ownership), every process "
+            "reads back its own payload and its output equals its solitary run's (isolation), when all have finished the "
+            "directory equals the initial one (cleanup), no deadlock (progress), and readers never change the file; a "
+            "negative control shows the freshness assumption is exactly what is needed. Tie to the code: trace "
+            "conformance of one real GFF3 and one real GTF import under an audit hook (mkstemp -> open w -> open r -> "
+            "unlink of one uniquely named file, nothing left), real runs with 2..2xcores processes, staggered starts, "
+            "mixed inputs, shared TMPDIR (each database equals the solitary run, directory empty), concurrent readers.",
+    "note": "Trusted: Lean kernel + standard axioms; OS scheduling, sqlite file locking and tempfile uniqueness are "
+            "runtime behaviour the model cannot exhibit (sampled only). Known finding D15: the from_string form leaks its "
+            "temp copy.",
+    "technique": "Lean 4 invariant over all interleavings of an abstract model + trace conformance + real concurrent runs",
+    "design_ref": "DESIGN.md §3 C20",
+}
+CLAIMED["C18"] = {
+    "text": "Lean theorems: len = end-start+1 (TypeError on '.'); sequence() = bases start..end of the named sequence, "
+            "reverse-complemented iff strand '-' and use_strand, length = len, complement an involution; bed12 equals "
+            "the specified twelve-field line (chromStart=start-1, chromEnd=end, one block per block child in ascending "
+            "order or the feature itself, sizes = lengths, starts relative to chromStart with first 0 and the last block "
+            "ending at chromEnd, thick bounds from the first/last thick (or thin) child) whenever the blocks span the "
+            "feature, raises ValueError iff they do not (or both thick and thin are given), FeatureNotFound for an absent "
+            "id, and depends only on the stored row (id or Feature argument alike); to_bed12 likewise. Unit-layer "
+            "correspondence on random transcripts and a random reference; oracle: field arithmetic from the property.",
+    "note": "Trusted: Lean kernel + standard axioms; pyfaidx slicing and complement modelled on ACGTNacgtn; block/thick "
+            "children with pairwise different starts (SQL leaves ties unordered).",
+    "technique": "Lean 4 theorems (implementation = specification of the BED12 line) + unit-layer correspondence",
+    "design_ref": "DESIGN.md §3 C18",
+}
+CLAIMED["C15"] = {
+    "text": "Lean theorems over the model of FeatureDB.interfeatures for all feature lists with integer coordinates: the "
+            "output is exactly filterMap of the gap function over consecutive pairs (one feature previous.end+1 .. "
+            "next.start-1 per same-seqid pair with a base between; none for touching, overlapping, nested pairs or "
+            "across a seqid change), N features with positive gaps give N-1, and every column of an interfeature "
+            "(featuretype, strand, attributes = per-key sorted duplicate-free union then update_attributes, several ID "
+            "values joined by '-', recomputed bin). create_introns / create_splice_sites are judged on the real code by "
+            "the oracle (gaps between start-ordered exons per transcript, two-base sites labelled by side and strand) "
+            "and are not yet covered by a theorem. Correspondence: exhaustive small geometries, random lists with all "
+            "option combinations.",
+    "note": "Trusted: Lean kernel + standard axioms; float() restricted to the decimal grammar; always_return_list=True; "
+            "attribute_func=None.",
+    "technique": "Lean 4 loop-invariant theorems + exhaustive/random differential correspondence",
+    "design_ref": "DESIGN.md §3 C15",
+}
+CLAIMED["C16"] = {
+    "text": "Lean theorems over the model of FeatureDB.merge for all criteria lists and inputs: order-preserving "
+            "partition (every input is yielded unchanged or is a child of exactly one merged output), the greedy "
+            "characterisation (a feature joins the run iff every criterion accepts (run so far, feature, children)), "
+            "span min start..max end, fresh pairwise-distinct ids, and for one class under the default criteria the "
+            "exact interval union (maximal runs of overlapping-or-adjacent intervals, separated by at least one uncovered "
+            "base); independence from the children attributes and idempotence on re-used objects (repaired D9, with a "
+            "proved witness of the old failure). children_bp and merge_all are judged on the real code by the oracle "
+            "and are not yet covered by a theorem. Correspondence: all 91 390 start-ordered multisets of <= 4 intervals "
+            "over 8 positions (thorough), random lists, every shipped criterion and threshold, re-used objects.",
+    "note": "Trusted: Lean kernel + standard axioms; set order of the merged 'source' compared as a set; inputs are "
+            "distinct objects with integer start <= end; seqids without commas.",
+    "technique": "Lean 4 invariants with step inversion, refinement to a pure sweep + exhaustive correspondence",
+    "design_ref": "DESIGN.md §3 C16",
+}
+
 PENDING_REASON = "check not built yet in this round of work (planned: DESIGN.md §3); nothing is claimed for it"
 
 
